@@ -958,7 +958,19 @@ class SymSession:
         return self.view is not None
 
     def connection(self):
-        raise NotImplementedError('raw connection')
+        # only used to ask for the dialect name (resource class sync)
+        class _Dialect:
+            name = 'sqlite'
+
+        class _Engine:
+            dialect = _Dialect()
+
+        class _Conn:
+            engine = _Engine()
+
+            def execute(self, *a, **k):
+                raise NotImplementedError('raw connection execute')
+        return _Conn()
 
     # --- ORM
     def query(self, *ents):
